@@ -67,7 +67,10 @@ func (w *world) rewrite(rt *rapid.T, r *request, kind string, gc genCfg) (labels
 		if len(r.upds) == 0 {
 			return nil, false
 		}
-		n := rapid.IntRange(1, len(r.upds)).Draw(rt, "regroup-n")
+		n := 1
+		if len(r.upds) > 1 && rapid.Bool().Draw(rt, "regroup-many") {
+			n = rapid.IntRange(2, len(r.upds)).Draw(rt, "regroup-n")
+		}
 		sel := map[int]bool{}
 		idxs := make([]int, len(r.upds))
 		for i := range idxs {
@@ -205,7 +208,7 @@ func (w *world) rewrite(rt *rapid.T, r *request, kind string, gc genCfg) (labels
 		}
 		cand := append(append([]int(nil), plain...), withLL...)
 		// F16 (open): a duplicated leaf-list write panics; keep that region rare but present
-		if gc.f16Active && len(plain) > 0 && rapid.IntRange(0, 9).Draw(rt, "dup-ll") != 0 {
+		if gc.f16Active && len(plain) > 0 && !chance(rt, "dup-ll", 3) {
 			cand = plain
 		}
 		i := pick(rt, cand, "dup")
@@ -475,7 +478,7 @@ func TestC22(t *testing.T) {
 	rapid.Check(t, func(rt *rapid.T) {
 		md := mode(rapid.IntRange(0, 2).Draw(rt, "mode"))
 		w := genWorld(rt, false)
-		gc := genCfg{md: md, conflicts: rapid.IntRange(0, 24).Draw(rt, "conflicts") == 0, f16Active: rec.Active(F16), f70Active: rec.Active(F70)}
+		gc := genCfg{md: md, conflicts: chance(rt, "conflicts", 5), f16Active: rec.Active(F16), f70Active: rec.Active(F70)}
 		a := w.genRequest(rt, gc)
 		b := a.clone()
 		nrw := rapid.SampledFrom([]int{1, 1, 2, 3}).Draw(rt, "nrewrites")
@@ -681,8 +684,8 @@ func TestC22(t *testing.T) {
 		need("op:update-json-container", 0.1)
 		need("op:prefix", 0.1)
 		if cases >= 250 {
-			need("key:needs-escape(=])", 0.004)
-			need("key:big-numeric(>=1e6)", 0.004)
+			need("key:needs-escape(=])", 0.005)
+			need("key:big-numeric(>=1e6)", 0.01)
 			need("op:update-json-root", 0.01)
 			need("op:replace-json-entry", 0.03)
 			need("op:replace-json-container", 0.03)
